@@ -1995,9 +1995,9 @@ def selfcheck():
 
 
 SUBCHECKS = [
-    SubCheck('refactor', lambda: st.one_of(GENERAL_REFACTOR_SPEC, GENERAL_REFACTOR_SPEC, GENERAL_REFACTOR_SPEC, SCENARIO_SPEC), isolated(run_refactor), quick=1000, thorough=4260, quick_time=240, thorough_time=1500),
-    SubCheck('solve_ode', lambda: SOLVE_SPEC, run_solve_ode, quick=96, thorough=410, quick_time=240, thorough_time=1500),
-    SubCheck('evaluators', lambda: EVAL_SPEC, isolated(run_evaluators), quick=480, thorough=2050, quick_time=240, thorough_time=1500),
+    SubCheck('refactor', lambda: st.one_of(GENERAL_REFACTOR_SPEC, GENERAL_REFACTOR_SPEC, GENERAL_REFACTOR_SPEC, SCENARIO_SPEC), isolated(run_refactor), quick=1000, thorough=2130, quick_time=240, thorough_time=1500),
+    SubCheck('solve_ode', lambda: SOLVE_SPEC, run_solve_ode, quick=96, thorough=200, quick_time=240, thorough_time=1500),
+    SubCheck('evaluators', lambda: EVAL_SPEC, isolated(run_evaluators), quick=480, thorough=1020, quick_time=240, thorough_time=1500),
 ]
 
 KNOWN_PREDICATES = {}
